@@ -56,7 +56,7 @@ fn q(s: &str) -> String {
     out
 }
 
-fn values_doc() -> J {
+pub fn values_doc() -> J {
     let o = |v: Vec<(&str, J)>| J::Obj(v.into_iter().map(|(k, v)| (k.to_string(), v)).collect());
     let vals = vec![
         J::Null,
@@ -86,7 +86,7 @@ fn values_doc() -> J {
     o(vec![("v", J::Arr(vals.clone())), ("w", J::Obj(vals.iter().enumerate().map(|(i, v)| (format!("k{:02}", i), v.clone())).collect())), ("n", J::int(2)), ("s", J::str("ab")), ("l", J::Arr(vec![J::int(1), J::int(2)]))])
 }
 
-fn value_queries() -> Vec<String> {
+pub fn value_queries() -> Vec<String> {
     let mut out = vec![];
     let cmp_ops = ["==", "!=", "<", "<=", ">", ">="];
     for base in ["$.v", "$.w"] {
